@@ -735,7 +735,7 @@ class Solver(object):
 
             # Our next step may exceed a required timestep so we adjust the
             # timestep.
-            timestep_too_big = (tdiff > 0.0) & (tdiff < dt)
+            timestep_too_big = (tdiff > self._epsilon) & (tdiff < dt)
             if numpy.any(timestep_too_big):
                 indices = numpy.where(timestep_too_big)[0]
                 index = indices[0]
